@@ -132,7 +132,8 @@ pub fn wire_model(r: &DuoRun, cfg: &OracleCfg, o: &mut Outcome) -> WireModel {
     let led = r.led.borrow();
     let l = r.link.lock().unwrap();
     let mut m = WireModel::default();
-    let mut cur: HashMap<u32, usize> = HashMap::new();
+    let mut view: [HashMap<u32, usize>; 2] = [HashMap::new(), HashMap::new()];
+    let mut attr: HashMap<usize, usize> = HashMap::new();
     for e in &l.evs {
         let from = e.from;
         let to = 1 - from;
@@ -150,19 +151,37 @@ pub fn wire_model(r: &DuoRun, cfg: &OracleCfg, o: &mut Outcome) -> WireModel {
             continue;
         }
         let id = f.id();
-        match (f, e.stage) {
-            (RFrame::Connect { rwnd, host, .. }, Stage::Sent) => {
-                let tag = tag_of_host(host);
-                let inst = Inst { id, tag, requester: from, connect_seq: e.seq, win: if from == 0 { [Some(*rwnd), None] } else { [None, Some(*rwnd)] }, ..Default::default() };
-                m.insts.push(inst);
-                cur.insert(id, m.insts.len() - 1);
-                if let Some(t) = tag {
-                    m.by_tag.insert(t, m.insts.len() - 1);
-                }
+        // Which incarnation of flow `id` does this frame belong to? Flow ids are re-used, and a
+        // frame of the previous incarnation may still be travelling when the next Connect with the
+        // same id is already on the wire. A frame belongs to the incarnation its SENDER knew when
+        // it sent it (the last Connect(id) that endpoint had sent or consumed); the later stages of
+        // the same message inherit that attribution.
+        let key = std::sync::Arc::as_ptr(&e.w) as usize;
+        if let (RFrame::Connect { rwnd, host, .. }, Stage::Sent) = (f, e.stage) {
+            let tag = tag_of_host(host);
+            let inst = Inst { id, tag, requester: from, connect_seq: e.seq, win: if from == 0 { [Some(*rwnd), None] } else { [None, Some(*rwnd)] }, ..Default::default() };
+            m.insts.push(inst);
+            view[from].insert(id, m.insts.len() - 1);
+            if let Some(t) = tag {
+                m.by_tag.insert(t, m.insts.len() - 1);
             }
+        }
+        let cur: Option<usize> = if e.stage == Stage::Sent {
+            let v = view[from].get(&id).copied();
+            if let Some(v) = v {
+                attr.insert(key, v);
+            }
+            v
+        } else {
+            attr.get(&key).copied()
+        };
+        if let (RFrame::Connect { .. }, Stage::Consumed, Some(ix)) = (f, e.stage, cur) {
+            view[to].insert(id, ix);
+        }
+        match (f, e.stage) {
             (RFrame::Ack { n, .. }, Stage::Sent) => {
                 m.n_ack += 1;
-                let Some(&ix) = cur.get(&id) else { continue };
+                let Some(ix) = cur else { continue };
                 let x = &mut m.insts[ix];
                 if x.est_sent.is_none() && x.rejected.is_none() && x.requester == to {
                     x.est_sent = Some(e.seq);
@@ -190,7 +209,7 @@ pub fn wire_model(r: &DuoRun, cfg: &OracleCfg, o: &mut Outcome) -> WireModel {
                 }
             }
             (RFrame::Ack { n, .. }, Stage::Consumed) => {
-                let Some(&ix) = cur.get(&id) else { continue };
+                let Some(ix) = cur else { continue };
                 let x = &mut m.insts[ix];
                 if x.est_sent.is_some() && x.est_consumed.is_none() && x.requester == to {
                     x.est_consumed = Some(e.seq);
@@ -200,7 +219,7 @@ pub fn wire_model(r: &DuoRun, cfg: &OracleCfg, o: &mut Outcome) -> WireModel {
             }
             (RFrame::Push { data, .. }, Stage::Sent) => {
                 m.n_push += 1;
-                let Some(&ix) = cur.get(&id) else {
+                let Some(ix) = cur else {
                     o.violate("C03:push-unknown-flow", format!("endpoint {from} sent Push on flow {id:x} that was never opened"));
                     continue;
                 };
@@ -234,12 +253,12 @@ pub fn wire_model(r: &DuoRun, cfg: &OracleCfg, o: &mut Outcome) -> WireModel {
                 x.bytes_sent[from] += data.len() as u64;
             }
             (RFrame::Push { data, .. }, Stage::Consumed) => {
-                if let Some(&ix) = cur.get(&id) {
+                if let Some(ix) = cur {
                     m.insts[ix].push_consumed[to].push(data.len());
                 }
             }
             (RFrame::Finish { .. }, Stage::Sent) => {
-                if let Some(&ix) = cur.get(&id) {
+                if let Some(ix) = cur {
                     let x = &mut m.insts[ix];
                     if x.finish_sent[from].is_some() && x.est_sent.is_some() {
                         o.violate("C05:duplicate-finish", format!("flow {id:x}: endpoint {from} sent Finish twice"));
@@ -248,14 +267,14 @@ pub fn wire_model(r: &DuoRun, cfg: &OracleCfg, o: &mut Outcome) -> WireModel {
                 }
             }
             (RFrame::Finish { .. }, Stage::Consumed) => {
-                if let Some(&ix) = cur.get(&id) {
+                if let Some(ix) = cur {
                     let x = &mut m.insts[ix];
                     x.finish_consumed[to] = x.finish_consumed[to].or(Some(e.seq));
                 }
             }
             (RFrame::Reset { .. }, Stage::Sent) => {
                 m.n_reset += 1;
-                let Some(&ix) = cur.get(&id) else { continue };
+                let Some(ix) = cur else { continue };
                 let x = &mut m.insts[ix];
                 x.reset_sent[from].push(e.seq);
                 if x.est_sent.is_none() {
@@ -292,7 +311,7 @@ pub fn wire_model(r: &DuoRun, cfg: &OracleCfg, o: &mut Outcome) -> WireModel {
                 }
             }
             (RFrame::Reset { .. }, Stage::Consumed) => {
-                if let Some(&ix) = cur.get(&id) {
+                if let Some(ix) = cur {
                     let x = &mut m.insts[ix];
                     x.reset_consumed[to] = x.reset_consumed[to].or(Some(e.seq));
                 }
@@ -489,6 +508,28 @@ pub fn judge(r: &DuoRun, cfg: &OracleCfg, o: &mut Outcome) -> (WireModel, EndInf
                 o.violate("C08:pending:request_bind", format!("endpoint {x}: request_bind #{k} still pending after the connection ended ({})", ei.why[x]));
             }
         }
+        // calls the application made only after its connection task had returned
+        for (name, inv, ret, res) in &led.late[x] {
+            o.probe("late-call-after-end", 1);
+            if ret.is_none() {
+                o.violate(&format!("C08:late-call-blocked:{name}"), format!("endpoint {x}: {name} called (seq {inv}) after the connection task had returned ({}) never completes", ei.why[x]));
+                if *name == "request_bind" {
+                    o.violate("C15:unresolved-after-end", format!("endpoint {x}: a bind request made (seq {inv}) after the connection had ended ({}) never resolves; `false` or Closed are the legal answers", ei.why[x]));
+                }
+                continue;
+            }
+            let legal = match *name {
+                "new_stream_channel" => res == "Err(Closed)",
+                "request_bind" => res == "Ok(false)" || res == "Err(Closed)" || res == "cancelled",
+                _ => true,
+            } || res == "cancelled";
+            if !legal {
+                o.violate(&format!("C08:late-call-result:{name}"), format!("endpoint {x}: {name} called after the connection had ended ({}) returned {res}; Closed (or a negative bind answer) is required", ei.why[x]));
+                if *name == "request_bind" {
+                    o.violate("C15:late-bind-result", format!("endpoint {x}: a bind request made after the connection had ended resolved with {res}"));
+                }
+            }
+        }
     }
     if cfg.dgram {
         judge_datagrams(r, &led, &ei, o);
@@ -656,7 +697,10 @@ fn judge_binds(r: &DuoRun, led: &Ledger, ei: &EndInfo, o: &mut Outcome) {
             None => {
                 // legitimately pending only while the peer application has not answered
                 if ei.judged[*from] {
-                    continue; // reported by C08
+                    // the requester's own connection has ended: `false` or Closed is owed (C08 reports
+                    // the same situation as a blocked call)
+                    o.violate("C15:unresolved-after-end", format!("bind request #{k} is still pending at quiescence although the requester's connection has ended ({})", ei.why[*from]));
+                    continue;
                 }
                 if !ended && (disabled || accepted_by_peer || refused_by_peer) {
                     o.violate("C15:unresolved", format!("bind request #{k} is still pending at quiescence although the peer {}", if disabled { "does not accept binds" } else if accepted_by_peer { "accepted it" } else { "rejected or dropped it" }));
